@@ -5,6 +5,7 @@ From Coq Require Import ZArith List Bool String Reals.
 From VQ Require Import Num Model.Vec Model.Core Proofs.CoreNearest Glue.CoreGlue.
 From VQ Require Import Model.Einops Model.Layout Glue.EinopsGlueBase Glue.EinopsGlueHeads.
 From VQ Require Import Model.Machine Model.History Proofs.HistoryProofs.
+From VQ Require Import Glue.Pin_fp_C01.
 Import ListNotations.
 Open Scope R_scope.
 
@@ -272,3 +273,8 @@ Theorem C01_history_write_forgets :
        @htrace F o fsqrt cfg (@hrun F o fsqrt cfg s' (pre' ++ [@HWrite F snew])) post.
 Proof. exact (@HistoryProofs.history_write_forgets). Qed.
 Print Assumptions C01_history_write_forgets.
+
+Theorem C01_tie_source_footprint :
+  fp_C01.fp_C01 = pinned_fp_C01.
+Proof. exact (@Pin_fp_C01.pin_fp_C01). Qed.
+Print Assumptions C01_tie_source_footprint.
